@@ -809,6 +809,15 @@ class World(object):
         self.bind(op["out"], xb, "point")
         self.reach["get_block_temp"] += 1
 
+    def op_setparam(self, op):
+        """Edit a public class parameter of a function (e.g. f.L) between two solves."""
+        f = self.get(op["f"])
+        cur = getattr(f, op["attr"])
+        if isinstance(cur, list):
+            setattr(f, op["attr"], [c * op["scale"] for c in cur])
+        else:
+            setattr(f, op["attr"], cur * op["scale"])
+
     def op_drop(self, op):
         for n in op["handles"]:
             self.h.pop(n, None)
